@@ -234,6 +234,32 @@ def check_completed_command():
                     b.close()
 
 
+def check_config_dir_name():
+    """the whole command on a budget whose config directory is not called `config` (tally up <dir> takes any directory): after the migration the settings
+    must name the rules file where it was written"""
+    b = make_budget(SETTINGS)
+    try:
+        other = os.path.join(b.root, 'settings')
+        shutil.move(b.config, other)
+        b.config = other
+
+        def cls(migrate=False):
+            out, err, code = run_cmd(cmd_run, **up_args(b, format='json', migrate=migrate, quiet=True))
+            doc = last_json(out)
+            return None if doc is None else sorted((m['name'], m['category']) for m in doc['merchants'])
+        want = cls()
+        O.case(('config_dir_name',))
+        first = cls(migrate=True)
+        after = cls()
+        again = cls(migrate=True)
+        if not (want == first == after == again):
+            O.fail('C15.csv_migration.completed.rules_not_in_force.config_dir_not_named_config', {'function': 'tally up <dir> --migrate', 'config_dir_name': 'settings'}, want,
+                   {'during_migrating_run': first, 'next_run': after, 'after_rerun_with_migrate': again, 'dir': sorted(os.listdir(b.config))},
+                   'tally up settings --migrate, then tally up settings, then the same command again')
+    finally:
+        b.close()
+
+
 def check_layout_migration():
     k = 0
     while k < 10:
@@ -326,6 +352,8 @@ def main():
     if O.witness:
         if 'existing' in O.witness:
             check_existing_targets()
+        elif 'config_dir_name' in O.witness:
+            check_config_dir_name()
         elif 'command_settings' in O.witness:
             check_completed_command()
         elif O.witness.get('existing_tally_dir'):
@@ -339,6 +367,7 @@ def main():
         check_csv_migration(variant)
     check_existing_targets()
     check_completed_command()
+    check_config_dir_name()
     check_layout_migration()
     check_layout_existing_target()
     O.sample({'function': '_migrate_csv_to_rules', 'event': 'crash', 'primitive_index': 3})
